@@ -139,6 +139,81 @@ def rv_places(rv):
     return [p for p in (op_place(o) for o in rv_operands(rv)) if p]
 
 
+
+# --------------------------------------------------------------------------- renumbering (for inlining)
+
+def _shift_place(pl, off):
+    l, proj = pl
+    np = []
+    for e in proj:
+        if isinstance(e, list) and e and e[0] == 'i':
+            np.append(['i', e[1] + off])
+        else:
+            np.append(e)
+    return [l + off, np]
+
+
+def _shift_op(o, off):
+    if o and o[0] in ('c', 'm'):
+        return [o[0], _shift_place(o[1], off)]
+    return o
+
+
+def _shift_rv(rv, off):
+    k = rv[0]
+    if k in ('use', 'repeat'):
+        return [k, _shift_op(rv[1], off)]
+    if k == 'ref':
+        return [k, rv[1], _shift_place(rv[2], off)]
+    if k in ('rawptr', 'cfd'):
+        return [k, _shift_place(rv[1], off)]
+    if k == 'discr':
+        return [k, _shift_place(rv[1], off), rv[2]]
+    if k == 'bin':
+        return [k, rv[1], _shift_op(rv[2], off), _shift_op(rv[3], off)]
+    if k == 'un':
+        return [k, rv[1], _shift_op(rv[2], off)]
+    if k == 'cast':
+        return [k, rv[1], _shift_op(rv[2], off), rv[3]]
+    if k == 'agg':
+        return [k, rv[1], [_shift_op(o, off) for o in rv[2]]]
+    return rv
+
+
+def _shift_stmt(s, off):
+    k = s['k']
+    if k == 'a':
+        return dict(s, p=_shift_place(s['p'], off), rv=_shift_rv(s['rv'], off))
+    if k == 'sd':
+        return dict(s, p=_shift_place(s['p'], off))
+    if k in ('sl', 'sx'):
+        return dict(s, v=s['v'] + off)
+    return s
+
+
+def _shift_term(t, off, base):
+    t = dict(t)
+    for key in ('t', 'uw', 'o', 'dr', 'im'):
+        if key in t and isinstance(t[key], int):
+            t[key] = t[key] + base
+    k = t['k']
+    if k == 'sw':
+        t['op'] = _shift_op(t['op'], off)
+        t['ts'] = [[v, tb + base] for v, tb in t['ts']]
+    elif k == 'call':
+        t['args'] = [_shift_op(a, off) for a in t['args']]
+        t['d'] = _shift_place(t['d'], off)
+        if 'fp' in t:
+            t['fp'] = _shift_op(t['fp'], off)
+    elif k == 'drop':
+        t['p'] = _shift_place(t['p'], off)
+    elif k == 'assert':
+        t['op'] = _shift_op(t['op'], off)
+    elif k == 'yield':
+        t['op'] = _shift_op(t['op'], off)
+        t['ra'] = _shift_place(t['ra'], off)
+    return t
+
 # --------------------------------------------------------------------------- Body
 
 class Body:
@@ -930,16 +1005,115 @@ class Program:
                     b.path = f'{b.path}#{k}'
                 self.bodies[b.path] = b
         self._pred_tables = {}
+        self._inlined = {}
+        self._known = None
+        self._inlined_into = {}
         self._callers = None
         self._maycall = None
         self._children = None
 
     # ---- lookup
-    def body(self, path):
+    def body(self, path, inline=True):
+        """The body of `path`.  With inline=True (default) helper functions that have exactly one call site in the whole
+        program, located in this body, are spliced into its CFG (the call terminator is kept, so call-site anchors still
+        work, and its successor becomes the entry of the inlined copy).  An "extract helper" refactoring therefore leaves
+        the intra-procedural rules anchored in the original function unaffected."""
         b = self.bodies.get(path)
         if b is None:
             raise FailClosed(f'anchor missing: body {path}')
-        return b
+        if not inline:
+            return b
+        ib = self._inlined.get(path)
+        if ib is None:
+            ib = self._make_inlined(b)
+            self._inlined[path] = ib
+        return ib
+
+    # ---- inlining of single-call-site helpers
+    def known_functions(self):
+        if self._known is None:
+            import json as _json
+            import os as _os
+            p = _os.path.join(_os.path.dirname(_os.path.dirname(_os.path.dirname(_os.path.abspath(__file__)))), 'tables', 'known_functions.json')
+            try:
+                with open(p) as f:
+                    self._known = set(_json.load(f)['functions'])
+            except OSError:
+                self._known = set(self.bodies)   # no table: never inline
+        return self._known
+
+    def _single_site_callee(self, callee, caller_body, blk):
+        cb = self.bodies.get(callee)
+        if cb is None or cb.kind not in ('fn', 'method') or callee == caller_body.path:
+            return False
+        if callee in self.known_functions():
+            return False   # a function the rules were written against: analysed as it is
+        if cb.n > 400:
+            return False
+        sites = [(x.path, bi) for x, bi in self.callers_of(callee) if '::tests::' not in x.path]
+        sites = sorted(set(sites))
+        if sites != [(caller_body.path, blk)]:
+            return False
+        if self.fn_refs().get(callee):
+            return False
+        return True
+
+    def _make_inlined(self, b, depth=0, stack=()):
+        if depth > 2:
+            return b
+        todo = []
+        for bi, t, c in b.calls():
+            if bi in b.reachable() and c and c not in stack and self._single_site_callee(c, b, bi):
+                todo.append((bi, c))
+        if not todo:
+            return b
+        j = b.j
+        locals_ = list(j['locals'])
+        dbg = list(j['dbg'])
+        blocks = [dict(blk) for blk in j['blocks']]
+        inl = []
+        for bi, c in todo:
+            fb = self._make_inlined(self.bodies[c], depth + 1, stack + (b.path,))
+            fj = fb.j
+            off = len(locals_)
+            base = len(blocks)
+            locals_.extend(fj['locals'])
+            for name, pl in fj['dbg']:
+                dbg.append([name, _shift_place(pl, off)])
+            t = dict(blocks[bi]['t'])
+            line = t.get('l', 0)
+            tgt = t.get('t')
+            entry = base + len(fj['blocks'])
+            # parameter passing block
+            pst = []
+            for i, a in enumerate(t['args']):
+                if i < fj['argc']:
+                    pst.append({'k': 'a', 'p': [off + 1 + i, []], 'rv': ['use', a], 'l': line})
+            for fbi, fblk in enumerate(fj['blocks']):
+                nb = {'c': fblk['c'], 's': [_shift_stmt(x, off) for x in fblk['s']], 't': None}
+                ft = fblk['t']
+                if ft is not None:
+                    if ft['k'] == 'ret' and not fblk['c']:
+                        nb['s'] = nb['s'] + [{'k': 'a', 'p': t['d'], 'rv': ['use', ['c', [off, []]]], 'l': ft.get('l', line)}]
+                        nb['t'] = {'k': 'goto', 't': tgt, 'l': ft.get('l', line)} if tgt is not None else {'k': 'unreach', 'l': line}
+                    else:
+                        nb['t'] = _shift_term(ft, off, base)
+                blocks.append(nb)
+            blocks.append({'c': 0, 's': pst, 't': {'k': 'goto', 't': base, 'l': line}})
+            t['t'] = entry
+            t['inlined'] = c
+            blocks[bi] = dict(blocks[bi], t=t)
+            inl.append(c)
+            inl.extend(getattr(fb, 'inlined_callees', []))
+        nj = dict(j, locals=locals_, dbg=dbg, blocks=blocks)
+        nb_ = Body(nj, self)
+        nb_.path = b.path
+        nb_.inlined_callees = inl
+        for c in inl:
+            self._inlined_into.setdefault(b.path, [])
+            if c not in self._inlined_into[b.path]:
+                self._inlined_into[b.path].append(c)
+        return nb_
 
     def find_bodies(self, regex):
         r = re.compile(regex)
@@ -976,6 +1150,15 @@ class Program:
         i = 0
         while i < len(out):
             out.extend(self.children(out[i]))
+            # closures defined in helpers that were inlined into this body
+            if out[i] in self.bodies and self.bodies[out[i]].kind in ('fn', 'method', 'coroutine'):
+                try:
+                    self.body(out[i])
+                except FailClosed:
+                    pass
+                for c in self._inlined_into.get(out[i], []):
+                    if c not in out:
+                        out.append(c)
             i += 1
         return out
 
